@@ -115,6 +115,8 @@ type originInfo struct {
 }
 
 type Enc struct {
+	patOf map[string]Term
+	defOf map[string]string // defined name -> defining term
 	wsInsStack []ssa.Instruction
 	fvFree    map[*ssa.FreeVar]ssa.Value
 	wsStack   []string
@@ -213,7 +215,37 @@ func (e *Enc) define(hint string, t Term) Term {
 	}
 	c := e.freshConst(hint, t.Sort)
 	e.asserts = append(e.asserts, fmt.Sprintf("(= %s %s)", c.S, t.S))
+	if e.defOf == nil {
+		e.defOf = map[string]string{}
+	}
+	e.defOf[c.S] = t.S
 	return c
+}
+
+// patConst: a declared constant equal to t, for use inside quantifier patterns (defined names are
+// expanded as macros in the queries and may contain ite/and, which patterns must not).
+func (e *Enc) patConst(t Term) Term {
+	if _, isDef := e.defOf[t.S]; !isDef && !strings.HasPrefix(t.S, "(") {
+		return t
+	}
+	if c, ok := e.patOf[t.S]; ok {
+		return c
+	}
+	c := e.freshConst("pat", t.Sort)
+	e.asserts = append(e.asserts, fmt.Sprintf("(= %s %s)", wrapNoDef(t.S), c.S))
+	if e.patOf == nil {
+		e.patOf = map[string]Term{}
+	}
+	e.patOf[t.S] = c
+	return c
+}
+
+// wrapNoDef keeps "(= x c)" from being read as a definition of x.
+func wrapNoDef(s string) string {
+	if strings.HasPrefix(s, "|") {
+		return "(+ 0 " + s + ")"
+	}
+	return s
 }
 
 func (e *Enc) defineAlways(hint string, t Term) Term {
